@@ -232,7 +232,7 @@ func cmdCheck(args []string) int {
 	os.MkdirAll(outDir, 0755)
 	budget := 8 * time.Minute
 	if *tier == "thorough" {
-		budget = 40 * time.Minute
+		budget = 15 * time.Minute
 	}
 	if *budgetS > 0 {
 		budget = time.Duration(*budgetS) * time.Second
